@@ -767,7 +767,8 @@ class Interp(ExprMixin):
     def s_For(self, s, st):
         it = self.eval(s.iter, st)
         if isinstance(it, Tup) and not s.orelse and ((len(it) <= 6 and self.unroll) or (
-                len(it) <= 4 and all(isinstance(i, Const) or (isinstance(i, Poly) and i.const_value() is not None) for i in it.items))):
+                len(it) <= 4 and all(isinstance(i, Const) or (isinstance(i, Poly) and i.const_value() is not None) for i in it.items))
+                or (len(it) <= 12 and all(_fully_known(i) for i in it.items))):
             # a list whose items are all known: iterate concretely
             states, done, left = [st], [], []
             for item in it.items:
@@ -894,6 +895,17 @@ def _known_mapping(v):
                 return None
             out[pr.items[0].value] = pr.items[1]
     return out
+
+
+def _fully_known(v):
+    """a literal table entry: constants, classes / functions, and tuples of those"""
+    if isinstance(v, Const):
+        return True
+    if isinstance(v, Poly):
+        return v.const_value() is not None
+    if isinstance(v, Tup):
+        return all(_fully_known(i) for i in v.items)
+    return False
 
 
 def canon_cond(tv, pol):
